@@ -851,6 +851,18 @@ fn converse(rng: &mut Rng, out: &mut Out, n: usize) {
           }
         });
       }
+      // tie of the transformation pass (fid 52): captures and transformations in, transformed variables out
+      if !trans.is_empty() {
+        let cap = |m: &HashMap<String, String>, names: &[&str]| Val::L(names.iter().filter_map(|n| m.get(*n).map(|t| vl![Val::str_bytes(n), Val::chars(t)])).collect());
+        let multi_names: Vec<&str> = multi.iter().copied().collect();
+        let optz = |o: Option<usize>| Val::opt(o.map(Val::n));
+        let input = vl![cap(&val, &singles), cap(&val, &multi_names),
+          Val::L(trans.iter().map(|t| vl![Val::str_bytes(&t.key), Val::str_bytes(&t.source), optz(t.start), optz(t.end)]).collect())];
+        let mut got_t: Vec<(String, String)> = trans.iter().map(|t| (t.key.clone(), env.get_transformed(&t.key).map(|b| String::from_utf8_lossy(b).to_string()).unwrap_or_else(|| "<absent>".into()))).collect();
+        got_t.sort();
+        out.case(52, &input, &vl![Val::Z(0), Val::L(got_t.iter().map(|(k, v)| vl![Val::str_bytes(k), Val::chars(v)]).collect())],
+          &format!("transformed variables of {} on `{}`", q(&yaml), nm.text()));
+      }
       // expected text: longest variable name at each `$`
       let mut want = String::new();
       let mut pos = 0;
